@@ -213,7 +213,8 @@ func judgeC17(hi *Hist) []*Violation {
 	case simrt.Panic:
 		return nil
 	}
-	if !AutoMode(hi.Sc) || hi.Sc.Cont.Delay || cancelled(hi) {
+	auto := AutoMode(hi.Sc)
+	if (!auto && hi.Sc.Cont.Refresh != h.RefManual) || hi.Sc.Cont.Delay || cancelled(hi) {
 		return out
 	}
 	frames := ParseFrames(hi)
@@ -243,7 +244,10 @@ func judgeC17(hi *Hist) []*Violation {
 		}
 		// eventually displayed
 		if first < 0 {
-			add("never-displayed", "bar %d (queued after bar %d) was never displayed although Wait returned (%d frames; predecessor last seen in frame %d)", bf.Idx, pred.Idx, len(frames), lastPred)
+			// with manual refresh there may simply have been no frame after the predecessor's last one
+			if auto || (lastPred >= 0 && lastPred < len(frames)-1 && bf.AddRet < cycleFirstEvent(hi, frames, lastPred)) {
+				add("never-displayed", "bar %d (queued after bar %d) was never displayed although Wait returned (%d frames; predecessor last seen in frame %d)", bf.Idx, pred.Idx, len(frames), lastPred)
+			}
 			continue
 		}
 		// the handover frame: successor created before the predecessor's last frame was drawn
